@@ -42,7 +42,7 @@ def run_one(item, with_tests=False, tier='quick'):
         try:
             _apply(dst, edits)
         except RuntimeError as e:
-            return dict(prop=prop, name=name, kind=kind, status='patch-does-not-apply', detail=str(e))
+            return dict(prop=prop, name=name, kind=kind, status='patch-does-not-apply', detail=[str(e)])
         env = dict(os.environ, IXV_REPO=dst, PYTHONHASHSEED='0', IXV_NO_EVIDENCE='1')
         p = subprocess.run([sys.executable, '-m', 'ixv.run', prop, '--tier', tier], cwd=VERIF, env=env,
                            capture_output=True, text=True)
